@@ -23,7 +23,7 @@ Notation hb := (hb tr).
 Notation edge := (edge tr).
 
 Lemma edge_lt : forall i j, edge i j -> i < j.
-Proof. intros i j [[H _]|[H _]]; auto. Qed.
+Proof. intros i j [[H _]|[[H _]|[H _]]]; auto. Qed.
 Lemma hb_lt : forall i j, hb i j -> i < j.
 Proof. induction 1; [now apply edge_lt | lia]. Qed.
 
@@ -35,80 +35,147 @@ Proof.
   - exists y. split; auto. right. now apply clos_tn1_trans.
 Qed.
 
+Lemma mem_loc_In : forall x l, mem_loc x l = true <-> In x l.
+Proof.
+  intros; unfold mem_loc. rewrite existsb_exists. split.
+  - intros (y & Hy & E). apply loc_eqb_eq in E. now subst.
+  - intros H; exists x; split; auto. now apply loc_eqb_eq.
+Qed.
+Lemma In_rm_loc : forall x y l, In y (rm_loc x l) <-> In y l /\ y <> x.
+Proof.
+  intros. unfold rm_loc. rewrite filter_In. destruct (loc_eqb x y) eqn:E; simpl.
+  - apply loc_eqb_eq in E. subst. intuition congruence.
+  - assert (y <> x) by (intros ->; rewrite (proj2 (loc_eqb_eq x x) eq_refl) in E; discriminate). intuition.
+Qed.
+Lemma writes_store : forall l t l0 kd, writes l (Acc t l0 true kd) = true <-> l0 = l.
+Proof. intros. simpl. apply loc_eqb_eq. Qed.
+
 Section From.
 Variable i : nat.
 
-Definition sets_ok (k : nat) (ts : list tid) (ms : list mutex) : Prop :=
-  (forall t, In t ts <-> exists m e, i <= m < k /\ at_ m = Some e /\ ev_tid e = t /\ (m = i \/ hb i m)) /\
-  (forall x, In x ms <-> exists m t, i <= m < k /\ at_ m = Some (Rel t x) /\ (m = i \/ hb i m)).
+Definition R (m : nat) : Prop := m = i \/ hb i m.
 
-Lemma reached_spec : forall k ts ms e, sets_ok k ts ms -> at_ k = Some e -> i < k ->
-  (reachedb ts ms e = true <-> hb i k).
+Definition sets_ok (k : nat) (st : sets) : Prop :=
+  (forall t, In t (s_ts st) <-> exists m e, i <= m < k /\ at_ m = Some e /\ ev_tid e = t /\ R m) /\
+  (forall x, In x (s_ms st) <-> exists m t, i <= m < k /\ at_ m = Some (Rel t x) /\ R m) /\
+  (forall l, In l (s_ls st) <-> exists m t, i <= m < k /\ at_ m = Some (Acc t l true Atomic) /\ R m /\
+                               forall k' e, m < k' < k -> at_ k' = Some e -> writes l e = false).
+
+Lemma R_edge : forall m k, R m -> edge m k -> hb i k.
 Proof.
-  intros k ts ms e (HT & HM) He Hik. unfold reachedb. rewrite orb_true_iff. split.
+  intros m k [->|H] E; [apply t_step; auto | eapply t_trans; [exact H | apply t_step; auto]].
+Qed.
+
+Lemma reached_spec : forall k st e, sets_ok k st -> at_ k = Some e -> i < k ->
+  (reachedb st e = true <-> hb i k).
+Proof.
+  intros k st e (HT & HM & HL) He Hik. unfold reachedb. rewrite orb_true_iff. split.
   - intros [H|H].
     + apply mem_nat_In, HT in H. destruct H as (m & e' & Hm & He' & Et & Hr).
-      assert (Ed : edge m k).
-      { left. split; [lia|]. exists e', e. auto. }
-      destruct Hr as [->|Hr]; [apply t_step; auto | eapply t_trans; [exact Hr | apply t_step; auto]].
-    + destruct e; try discriminate. apply mem_mutex_In, HM in H.
-      destruct H as (m' & t' & Hm & He' & Hr).
-      assert (Ed : edge m' k).
-      { right. split; [lia|]. exists t', t, m. auto. }
-      destruct Hr as [->|Hr]; [apply t_step; auto | eapply t_trans; [exact Hr | apply t_step; auto]].
+      apply (R_edge m k Hr). left. split; [lia|]. exists e', e. auto.
+    + destruct e as [t l w kd|t m|t m]; try discriminate.
+      * destruct w; try discriminate. destruct kd; try discriminate.
+        apply mem_loc_In, HL in H. destruct H as (m & t' & Hm & He' & Hr & Hnw).
+        apply (R_edge m k Hr). right. right. split; [lia|]. exists t', t, l. auto.
+      * apply mem_mutex_In, HM in H. destruct H as (m' & t' & Hm & He' & Hr).
+        apply (R_edge m' k Hr). right. left. split; [lia|]. exists t', t, m. auto.
   - intros H. destruct (hb_last i k H) as (m & Hr & Ed).
     assert (Hm : i <= m < k).
     { pose proof (edge_lt _ _ Ed). destruct Hr as [->|Hr]; [lia|]. pose proof (hb_lt _ _ Hr). lia. }
-    destruct Ed as [(_ & a & b & Ha & Hb & Et)|(_ & t1 & t2 & x & Ha & Hb)].
-    + left. apply mem_nat_In, HT. rewrite He in Hb. injection Hb as <-.
-      exists m, a. auto.
+    destruct Ed as [(_ & a & b & Ha & Hb & Et)|[(_ & t1 & t2 & x & Ha & Hb)|(_ & t1 & t2 & l & Ha & Hb & Hnw)]].
+    + left. apply mem_nat_In, HT. rewrite He in Hb. injection Hb as <-. exists m, a. auto.
     + right. rewrite He in Hb. injection Hb as ->. apply mem_mutex_In, HM. exists m, t1. auto.
+    + right. rewrite He in Hb. injection Hb as ->. apply mem_loc_In, HL. exists m, t1. auto.
 Qed.
 
-Lemma sets_ok_skip : forall k ts ms, sets_ok k ts ms -> ~ hb i k -> i < k -> sets_ok (S k) ts ms.
+Lemma sets_next : forall k st e rb, sets_ok k st -> at_ k = Some e -> i < k ->
+  (rb = true <-> hb i k) -> sets_ok (S k) (next_sets st e rb).
 Proof.
-  intros k ts ms (HT & HM) Hn Hik. split.
-  - intros t. rewrite HT. split.
-    + intros (m & e & Hm & R). exists m, e. split; [lia|auto].
-    + intros (m & e & Hm & He & Et & Hr). exists m, e.
-      assert (m <> k) by (intros ->; destruct Hr as [->|Hr]; [lia|contradiction]).
-      split; [lia|auto].
-  - intros x. rewrite HM. split.
-    + intros (m & t & Hm & R). exists m, t. split; [lia|auto].
-    + intros (m & t & Hm & He & Hr). exists m, t.
-      assert (m <> k) by (intros ->; destruct Hr as [->|Hr]; [lia|contradiction]).
-      split; [lia|auto].
-Qed.
-
-Lemma sets_ok_add : forall k ts ms e, sets_ok k ts ms -> hb i k -> at_ k = Some e -> i < k ->
-  sets_ok (S k) (fst (upd_sets ts ms e)) (snd (upd_sets ts ms e)).
-Proof.
-  intros k ts ms e (HT & HM) Hh He Hik. unfold upd_sets; simpl. split.
-  - intros t. simpl. rewrite HT. split.
-    + intros [<-|(m & e' & Hm & R)].
-      * exists k, e. repeat split; auto; lia.
-      * exists m, e'. split; [lia|auto].
-    + intros (m & e' & Hm & He' & Et & Hr).
-      destruct (Nat.eq_dec m k) as [->|Hne].
-      * left. rewrite He in He'. injection He' as <-. auto.
-      * right. exists m, e'. split; [lia|auto].
-  - intros x. destruct e as [t l w a|t m0|t m0]; simpl.
-    + rewrite HM. split.
-      * intros (m & t' & Hm & R). exists m, t'. split; [lia|auto].
-      * intros (m & t' & Hm & He' & Hr). exists m, t'.
-        assert (m <> k) by (intros ->; rewrite He in He'; discriminate). split; [lia|auto].
-    + rewrite HM. split.
-      * intros (m & t' & Hm & R). exists m, t'. split; [lia|auto].
-      * intros (m & t' & Hm & He' & Hr). exists m, t'.
-        assert (m <> k) by (intros ->; rewrite He in He'; discriminate). split; [lia|auto].
-    + rewrite HM. split.
-      * intros [<-|(m & t' & Hm & R)].
-        -- exists k, t. repeat split; auto; lia.
-        -- exists m, t'. split; [lia|auto].
-      * intros (m & t' & Hm & He' & Hr).
-        destruct (Nat.eq_dec m k) as [->|Hne].
-        -- left. rewrite He in He'. injection He' as _ <-. auto.
-        -- right. exists m, t'. split; [lia|auto].
+  intros k st e rb (HT & HM & HL) He Hik Hrb.
+  assert (Hnk : rb = false -> forall m, i <= m < S k -> R m -> m < k).
+  { intros E m Hm [->|Hr]; [lia|]. destruct (Nat.eq_dec m k) as [->|]; [|lia].
+    apply Hrb in Hr. congruence. }
+  unfold next_sets; split; [|split]; cbn [s_ts s_ms s_ls].
+  - intros t. destruct rb.
+    + simpl. rewrite HT. split.
+      * intros [<-|(m & e' & Hm & Q)].
+        -- exists k, e. repeat split; auto; try lia. right. now apply Hrb.
+        -- exists m, e'. split; [lia|auto].
+      * intros (m & e' & Hm & He' & Et & Hr). destruct (Nat.eq_dec m k) as [->|Hne].
+        -- left. rewrite He in He'. injection He' as <-. auto.
+        -- right. exists m, e'. split; [lia|auto].
+    + rewrite HT. split.
+      * intros (m & e' & Hm & Q). exists m, e'. split; [lia|auto].
+      * intros (m & e' & Hm & He' & Et & Hr). exists m, e'. split; auto.
+        pose proof (Hnk eq_refl m Hm Hr). lia.
+  - intros x.
+    assert (Hkeep : In x (s_ms st) <-> exists m t, i <= m < S k /\ at_ m = Some (Rel t x) /\ R m /\ m <> k).
+    { rewrite HM. split.
+      - intros (m & t & Hm & Q1 & Q2). exists m, t. repeat split; auto; lia.
+      - intros (m & t & Hm & Q1 & Q2 & Q3). exists m, t. repeat split; auto; lia. }
+    destruct e as [t l w kd|t m0|t m0].
+    + rewrite Hkeep. split.
+      * intros (m & t' & Hm & Q1 & Q2 & _). exists m, t'. auto.
+      * intros (m & t' & Hm & Q1 & Q2). exists m, t'. split; [exact Hm|]. split; [exact Q1|]. split; [exact Q2|].
+        intros ->. rewrite He in Q1. discriminate.
+    + rewrite Hkeep. split.
+      * intros (m & t' & Hm & Q1 & Q2 & _). exists m, t'. auto.
+      * intros (m & t' & Hm & Q1 & Q2). exists m, t'. split; [exact Hm|]. split; [exact Q1|]. split; [exact Q2|].
+        intros ->. rewrite He in Q1. discriminate.
+    + destruct rb.
+      * simpl. rewrite Hkeep. split.
+        -- intros [<-|(m & t' & Hm & Q1 & Q2 & _)].
+           ++ exists k, t. repeat split; auto; try lia. right. now apply Hrb.
+           ++ exists m, t'. auto.
+        -- intros (m & t' & Hm & Q1 & Q2). destruct (Nat.eq_dec m k) as [->|Hne].
+           ++ left. rewrite He in Q1. injection Q1 as _ <-. auto.
+           ++ right. exists m, t'. auto.
+      * rewrite Hkeep. split.
+        -- intros (m & t' & Hm & Q1 & Q2 & _). exists m, t'. auto.
+        -- intros (m & t' & Hm & Q1 & Q2). exists m, t'. split; [exact Hm|]. split; [exact Q1|]. split; [exact Q2|].
+           pose proof (Hnk eq_refl m Hm Q2). lia.
+  - intros l.
+    (* membership before, re-expressed for the window up to S k when k does not write l *)
+    assert (Hext : writes l e = false ->
+              (In l (s_ls st) <-> exists m t, i <= m < S k /\ at_ m = Some (Acc t l true Atomic) /\ R m /\
+                                    (forall k' e0, m < k' < S k -> at_ k' = Some e0 -> writes l e0 = false))).
+    { intros Hw. rewrite HL. split.
+      - intros (m & t & Hm & Q1 & Q2 & Q3). exists m, t. repeat split; auto; try lia.
+        intros k' e0 Hk' He0. destruct (Nat.eq_dec k' k) as [->|]; [rewrite He in He0; injection He0 as <-; auto|].
+        apply (Q3 k' e0); auto. lia.
+      - intros (m & t & Hm & Q1 & Q2 & Q3).
+        assert (m <> k).
+        { intros ->. rewrite He in Q1. injection Q1 as ->. simpl in Hw.
+          rewrite (proj2 (loc_eqb_eq l l) eq_refl) in Hw. discriminate. }
+        exists m, t. repeat split; auto; try lia. intros k' e0 Hk'. apply Q3. lia. }
+    destruct e as [t l0 w kd|t m0|t m0]; try (apply Hext; reflexivity).
+    destruct w; [|apply Hext; reflexivity].
+    destruct (rb && is_atomic kd) eqn:Eb.
+    + apply andb_prop in Eb. destruct Eb as (-> & Ek). destruct kd; try discriminate.
+      assert (Wk : exists m t0, i <= m < S k /\ at_ m = Some (Acc t0 l0 true Atomic) /\ R m /\
+                     (forall k' e0, m < k' < S k -> at_ k' = Some e0 -> writes l0 e0 = false)).
+      { exists k, t. split; [lia|]. split; [exact He|]. split; [right; apply Hrb; reflexivity|].
+        intros k' e0 Hk'; lia. }
+      simpl. split.
+      * intros [<-|Hin]; [exact Wk|].
+        destruct (loc_eqb l0 l) eqn:El.
+        -- apply loc_eqb_eq in El. subst. exact Wk.
+        -- apply Hext; auto.
+      * intros (m & t' & Hm & Q1 & Q2 & Q3). destruct (Nat.eq_dec m k) as [->|Hne].
+        -- left. rewrite He in Q1. now injection Q1 as _ ->.
+        -- right. assert (Hw : writes l (Acc t l0 true Atomic) = false) by (apply (Q3 k); auto; lia).
+           apply Hext; auto. exists m, t'. auto.
+    + rewrite In_rm_loc. split.
+      * intros (Hin & Hne). assert (Hw : writes l (Acc t l0 true kd) = false).
+        { simpl. destruct (loc_eqb l0 l) eqn:El; auto. apply loc_eqb_eq in El. congruence. }
+        apply Hext; auto.
+      * intros (m & t' & Hm & Q1 & Q2 & Q3). destruct (Nat.eq_dec m k) as [->|Hne].
+        -- exfalso. rewrite He in Q1. injection Q1 as -> -> ->.
+           destruct Q2 as [->|Q2]; [lia|]. apply Hrb in Q2. subst rb. discriminate.
+        -- assert (Hw : writes l (Acc t l0 true kd) = false) by (apply (Q3 k); auto; lia).
+           split.
+           ++ apply Hext; auto. exists m, t'. auto.
+           ++ intros ->. simpl in Hw. rewrite (proj2 (loc_eqb_eq l0 l0) eq_refl) in Hw. discriminate.
 Qed.
 
 Lemma skipn_cons_at : forall k e r, skipn k tr = e :: r -> at_ k = Some e /\ skipn (S k) tr = r.
@@ -123,44 +190,40 @@ Proof.
   assert (length (skipn k tr) = 0) by (rewrite H; auto). rewrite skipn_length in H0. lia.
 Qed.
 
-Lemma scan_spec : forall a rest k ts ms, skipn k tr = rest -> i < k -> sets_ok k ts ms ->
-  (scan a ts ms rest = true <->
+Lemma scan_spec : forall a rest k st, skipn k tr = rest -> i < k -> sets_ok k st ->
+  (scan a st rest = true <->
    exists j b, k <= j /\ at_ j = Some b /\ conflictb a b = true /\ ~ hb i j).
 Proof.
-  intros a. induction rest as [|e r IH]; intros k ts ms Hs Hik Hok; simpl.
+  intros a. induction rest as [|e r IH]; intros k st Hs Hik Hok; simpl.
   - split; [discriminate|]. intros (j & b & Hj & Hb & _). rewrite (skipn_nil_at k j Hs Hj) in Hb. discriminate.
   - destruct (skipn_cons_at k e r Hs) as (He & Hs').
-    destruct (reachedb ts ms e) eqn:Er.
-    + assert (Hh : hb i k) by (apply (reached_spec k ts ms e Hok He Hik); auto).
-      pose proof (sets_ok_add k ts ms e Hok Hh He Hik) as Hok'.
-      unfold upd_sets in *. simpl in Hok'.
-      rewrite (IH (S k) _ _ Hs' ltac:(lia) Hok'). split.
-      * intros (j & b & Hj & R). exists j, b. split; [lia|auto].
-      * intros (j & b & Hj & Hb & Hc & Hn). exists j, b.
-        assert (j <> k) by (intros ->; contradiction). split; [lia|auto].
-    + assert (Hn : ~ hb i k).
-      { intros Hh. apply (reached_spec k ts ms e Hok He Hik) in Hh. congruence. }
-      pose proof (sets_ok_skip k ts ms Hok Hn Hik) as Hok'.
-      rewrite orb_true_iff, (IH (S k) ts ms Hs' ltac:(lia) Hok'). split.
-      * intros [Hc|(j & b & Hj & R)].
-        -- exists k, e. auto.
-        -- exists j, b. split; [lia|auto].
-      * intros (j & b & Hj & Hb & Hc & Hnj).
-        destruct (Nat.eq_dec j k) as [->|Hne].
-        -- left. rewrite He in Hb. injection Hb as <-. auto.
-        -- right. exists j, b. split; [lia|auto].
+    pose proof (reached_spec k st e Hok He Hik) as Hr.
+    assert (Hok' : sets_ok (S k) (next_sets st e (reachedb st e))) by (apply sets_next; auto).
+    rewrite orb_true_iff, (IH (S k) _ Hs' ltac:(lia) Hok'). split.
+    + intros [H|(j & b & Hj & Q)].
+      * apply andb_prop in H. destruct H as (H1 & H2). apply negb_true_iff in H1.
+        exists k, e. repeat split; auto. intros Hh. apply Hr in Hh. congruence.
+      * exists j, b. split; [lia|auto].
+    + intros (j & b & Hj & Hb & Hc & Hn). destruct (Nat.eq_dec j k) as [->|Hne].
+      * left. rewrite He in Hb. injection Hb as <-. rewrite Hc, andb_true_r. apply negb_true_iff.
+        destruct (reachedb st e) eqn:E; auto. exfalso. apply Hn. now apply Hr.
+      * right. exists j, b. split; [lia|auto].
 Qed.
 End From.
 
-Lemma start_ok : forall i a, at_ i = Some a ->
-  sets_ok i (S i) (fst (start_sets a)) (snd (start_sets a)).
+Lemma start_ok : forall i a, at_ i = Some a -> sets_ok i (S i) (start_sets a).
 Proof.
-  intros i a Ha. unfold start_sets; simpl. split.
+  intros i a Ha. unfold start_sets. split; [|split]; cbn [s_ts s_ms s_ls].
   - intros t. simpl. split.
-    + intros [<-|[]]. exists i, a. repeat split; auto.
+    + intros [<-|[]]. exists i, a. repeat split; auto. left; auto.
     + intros (m & e & Hm & He & Et & _). assert (m = i) by lia. subst. rewrite Ha in He. injection He as <-. auto.
   - intros x. split.
-    + destruct a; simpl; try tauto. intros [<-|[]]. exists i, t. repeat split; auto.
+    + destruct a; simpl; try tauto. intros [<-|[]]. exists i, t. repeat split; auto. left; auto.
+    + intros (m & t & Hm & He & _). assert (m = i) by lia. subst. rewrite Ha in He. injection He as ->.
+      simpl. auto.
+  - intros l. split.
+    + destruct a as [t l0 w kd| |]; simpl; try tauto. destruct w; simpl; try tauto. destruct kd; simpl; try tauto.
+      intros [<-|[]]. exists i, t. repeat split; auto. left; auto. intros k' e Hk'. lia.
     + intros (m & t & Hm & He & _). assert (m = i) by lia. subst. rewrite Ha in He. injection He as ->.
       simpl. auto.
 Qed.
@@ -183,18 +246,17 @@ Proof.
     assert (Htr' : tr = (pre ++ [a]) ++ r) by (rewrite <- app_assoc; exact Htr).
     rewrite orb_true_iff, (IH (pre ++ [a]) Htr'). rewrite app_length; simpl.
     pose proof (start_ok (length pre) _ Ha) as Hok.
-    unfold start_sets in Hok; simpl in Hok.
     split.
     + intros [H|(i & j & x & y & Hi & R)].
       * destruct (sel P a) eqn:Sa; [|discriminate].
-        apply (scan_spec (length pre) _ r (S (length pre)) _ _ Hsk ltac:(lia) Hok) in H.
+        apply (scan_spec (length pre) _ r (S (length pre)) _ Hsk ltac:(lia) Hok) in H.
         destruct H as (j & b & Hj & Hb & Hc & Hn).
         exists (length pre), j, a, b. repeat split; auto; lia.
       * exists i, j, x, y. split; [lia|auto].
     + intros (i & j & x & y & Hi & Hij & Hx & Hy & Hc & Hs & Hn).
       destruct (Nat.eq_dec i (length pre)) as [->|Hne].
       * left. rewrite Ha in Hx. injection Hx as ->. rewrite Hs.
-        apply (scan_spec (length pre) _ r (S (length pre)) _ _ Hsk ltac:(lia) Hok).
+        apply (scan_spec (length pre) _ r (S (length pre)) _ Hsk ltac:(lia) Hok).
         exists j, y. repeat split; auto; lia.
       * right. exists i, j, x, y. split; [lia|]. repeat split; auto.
 Qed.
